@@ -254,6 +254,26 @@ def run_harness(ctx, binp, mode, args, scenarios, tracefile, timeout=600):
     return p
 
 
+def drop_partial_last_line(path):
+    """A process that dies while writing leaves a truncated last line: remove it."""
+    with open(path, "rb") as f:
+        data = f.read()
+    if not data:
+        return
+    cut = len(data)
+    if not data.endswith(b"\n"):
+        cut = data.rfind(b"\n") + 1
+    else:
+        last = data[data.rfind(b"\n", 0, len(data) - 1) + 1:]
+        try:
+            json.loads(last)
+        except ValueError:
+            cut = len(data) - len(last)
+    if cut != len(data):
+        with open(path, "wb") as f:
+            f.write(data[:cut])
+
+
 def shard(xs, n):
     return [xs[i:i + n] for i in range(0, len(xs), n)]
 
@@ -405,6 +425,7 @@ def run_family(ctx, family, scenarios, harness_mode, harness_args, trace_module,
                             last = int(m.group(1))
             if last <= skip:
                 raise Inconclusive("harness died without progress rc=%d: %s" % (p.returncode, p.stderr[-2000:]))
+            drop_partial_last_line(tf)
             with open(tf, "a") as f:
                 if p.returncode == 2:
                     f.write(json.dumps({"ev": "fatal", "th": "main", "rc": 2, "msg": p.stderr[:700] + " ... " + p.stderr[-300:]}) + "\n")
